@@ -272,7 +272,7 @@ Inductive edit :=
 | ERange (lo hi : nat)        (* items[lo:hi] = ids *)
 | EAssign (idxs : list nat)   (* items[idxs[k]] = ids[k] *)
 | EPick (idxs : list nat)     (* items = [items[i] for i in idxs]  (no new atoms) *)
-| ENone.                      (* the list operation raised: nothing is stored *)
+| ENone.                      (* realise only, nothing is stored (not used by the current source) *)
 
 Definition apply_edit (e : edit) (old ids : list aid) : list aid :=
   match e with
@@ -647,10 +647,10 @@ Definition step (v : variant) (o : op) (w : world) : world * outcome :=
   | SetInt h i r copy =>
       match get_struct w h, resolve_aref w r with
       | Some (old, _), Some a =>
-          (* vfinal.lattice = self.lattice happens before list.__setitem__ can raise *)
+          (* list.__setitem__ first, vfinal.lattice = self.lattice only after it succeeded *)
           match norm_index (length old) i with
           | Some k => (install h [copy_src copy a] (ERange k (S k)) w, Done RNone)
-          | None => (install h [copy_src copy a] ENone w, Raised EIndex)
+          | None => (w, Raised EIndex)
           end
       | Some _, None => (w, Raised EIndex)
       | None, _ => bad w
@@ -668,7 +668,7 @@ Definition step (v : variant) (o : op) (w : world) : world * outcome :=
                 (install h srcs (ERange lo hi) w, Done RNone)
               else if Nat.eqb (length srcs) (length idxs)
               then (install h srcs (EAssign idxs) w, Done RNone)
-              else (install h srcs ENone w, Raised EValue)
+              else (w, Raised EValue)      (* size mismatch of an extended slice: nothing stored, nothing re-linked *)
           | _, _ => (w, Raised EValue)
           end
       | _, _ => bad w
